@@ -32,6 +32,7 @@ int CEX_op, CEX_idx, CEX_name, CEX_nregs, CEX_reg_temp[GR_REGS], CEX_reg_used[GR
 int CEX_nf, CEX_first_g, CEX_callee, CEX_nargs, CEX_arg_kind[2], CEX_arg_name[2], CEX_argnum[2], CEX_stack[2], CEX_ind[2], CEX_mi[2], CEX_tgt, CEX_n0;
 int CEX_rname, CEX_nparams, CEX_param[2], CEX_has_ports, CEX_has_out, CEX_out, CEX_body_k, CEX_body_var, CEX_body_tmp;
 int CEX_kind[8], CEX_lab[8];
+int CEX_g8[12];
 }
 
 // one-character names chosen by symbolic index.  The strings are built once (init_names) and copied afterwards (a copy is
@@ -990,4 +991,318 @@ extern "C" void h_gen_frame() {
   ASSERT(shape, "C03: gen() closes the root routine (frame size and stack map patched into the root PREPARE), appends HALT and patches the jumps");
   ASSERT(0, "WITNESS: end of h_gen_frame reachable");
 }
+#endif
+
+// =========================================================================================================
+// 8. lowering of LOOP, WHILE and plain assignment from an ARBITRARY generator state (C01 semantics of the lowering, C03 register
+// indices / jump targets, C16 privacy of the LOOP counter).  Real dispatchLoop / dispatchWhile with the traversal of the children
+// replaced by contract stubs (job option stubs: dispatchValue -> stub_value8, dispatchVoid -> stub_body8); real dispatchAssign +
+// dispatchValue (NAME / NUMBER leaves) in h_assign.  Unlike parts 2-7 the COUNTS of the pre-state are symbolic too (within the
+// capacities G8_*): number of instructions emitted so far, of existing labels, of pending backpatch entries, of registers, the
+// loop number; the stubs emit a symbolic number of instructions.  Pre-state invariants assumed:
+//   Inv_reg (part 4; variable names here: a, b, c or the counter name of an EARLIER loop, i.e. a loop number <= gs.loops)
+//   Inv_lab: every existing label is unset (-1) or a position <= code size; every pending entry is the position of an emitted
+//            JMP / JMPC whose operand is the index of an existing label; pending positions are increasing
+// The stubs behave like an arbitrary well-behaved subtree: stub_value8 (value of the bound / condition) may declare a variable and
+// emits 0..2 arbitrary non-jump instructions; stub_body8 (body) may take a temporary through the real allocator and release it at
+// its end, may be / contain a LOOP (gs.loops grows), emits 0..2 arbitrary non-jump instructions and at most one jump through the
+// real createLabel / emitBackpatched / setLabel (new or existing label, set anywhere or left unset: jumps out of, into, within the body).
+#if GR_PART == 8
+#ifndef G8_N0
+#define G8_N0 3       /* instructions emitted so far: 1..G8_N0 (the first one is the root PREPARE) */
+#endif
+#ifndef G8_NL
+#define G8_NL 2       /* existing labels: 0..G8_NL */
+#endif
+#ifndef G8_NT
+#define G8_NT 2       /* pending backpatch entries: 0..G8_NT */
+#endif
+#ifndef G8_REGS
+#define G8_REGS 3     /* registers of the pre-state: 0..G8_REGS */
+#endif
+#ifndef G8_LOOPS
+#define G8_LOOPS 8    /* loops compiled so far: 0..G8_LOOPS */
+#endif
+#ifndef G8_N0_LO      /* lower ends of the ranges (experiments: LO == HI makes the count a constant of the build) */
+#define G8_N0_LO 1
+#endif
+#ifndef G8_NL_LO
+#define G8_NL_LO 0
+#endif
+#ifndef G8_NT_LO
+#define G8_NT_LO 0
+#endif
+#ifndef G8_REGS_LO
+#define G8_REGS_LO 0
+#endif
+#ifndef G8_KV         /* value stub: 0..G8_KV instructions; G8_VDECL 0 never / 1 always / 2 symbolic: declares a variable */
+#define G8_KV 2
+#endif
+#ifndef G8_KV_LO
+#define G8_KV_LO 0
+#endif
+#ifndef G8_VDECL
+#define G8_VDECL 2
+#endif
+#ifndef G8_KB         /* body stub: 0..G8_KB plain instructions; temporary / jump / nested loop: 0 never, 1 always, 2 symbolic */
+#define G8_KB 2
+#endif
+#ifndef G8_KB_LO
+#define G8_KB_LO 0
+#endif
+#ifndef G8_BTMP
+#define G8_BTMP 2
+#endif
+#ifndef G8_BJUMP
+#define G8_BJUMP 2
+#endif
+#ifndef G8_BNEST
+#define G8_BNEST 2
+#endif
+static int pick8(int lo, int hi) { if (lo == hi) return lo; return pick(lo, hi); }
+static bool opt8(int mode) { if (mode == 0) return false; if (mode == 1) return true; return nondet_bool(); }
+static bool same_ins(const Instruction &a, const Instruction &b) {
+  return (a.op == b.op) & (a.parameters.test.target == b.parameters.test.target) & (a.parameters.test.op1 == b.parameters.test.op1) & (a.parameters.test.op2 == b.parameters.test.op2);
+}
+static Instruction any_ins(bool jumps) {
+  Instruction ins; int op = pick(0, 11);
+  if (!jumps) ASSUME(op != (int)OpCode::JMP && op != (int)OpCode::JMPC);
+  ins.op = (OpCode)op; ins.parameters.test.target = nondet_int(); ins.parameters.test.op1 = nondet_int(); ins.parameters.test.op2 = nondet_int();
+  return ins;
+}
+// the name dispatchLoop gives the counter of loop number k compiled at m:1 (used for registers of EARLIER loops in the pre-state only;
+// the name of the loop under test is never compared with a mirrored text, see hidden_name / has_loop_number)
+static std::string earlier_counter(int k) { std::string s("Loop Variable m:1["); s += small_to_string(k); s.__push(']'); return s; }
+static bool ident_char(char c) { return (c >= 'a' && c <= 'z') || (c >= 'A' && c <= 'Z') || (c >= '0' && c <= '9') || c == '_'; }
+// lexer.l: id = [a-zA-Z_][a-zA-Z0-9_]* - a name with any other character cannot be written in a program
+static bool hidden_name(const std::string &s) { bool other = false; for (int i = 0; i < MINISTL_STR_CAP; i++) if (i < s.n && !ident_char(s.b[i])) other = true; return other && !s.trunc; }
+static char char_at(const std::string &s, int at) { char r = 0; for (int i = 0; i < MINISTL_STR_CAP; i++) if (i == at) r = s.b[i]; return r; }
+// s ends with [k] (decimal): the loop number is part of the name, so two loops never share a counter name
+static bool has_loop_number(const std::string &s, int k) {
+  std::string suf; suf.__push('['); suf += small_to_string(k); suf.__push(']');
+  bool ok = s.n >= suf.n && !s.trunc && !suf.trunc;
+  for (int i = 0; i < 6; i++) if (i < suf.n) ok = ok & (char_at(s, s.n - suf.n + i) == suf.b[i]);
+  return ok;
+}
+struct Pre8 { int n0, nl, nt, loops0, nregs; Instruction code[G8_N0]; int lab[G8_NL + 1]; int todo[G8_NT + 1]; int todo_lab[G8_NT + 1]; };
+static void sym_regs8(FunctionGenState &f, int loops0) {
+  int n = pick8(G8_REGS_LO, G8_REGS); CEX_nregs = n;
+  for (int i = 0; i < G8_REGS; i++) {
+    VReg r; bool t = nondet_bool(); int nm = pick(0, 3); int k = pick(1, G8_LOOPS > 0 ? G8_LOOPS : 1);
+    ASSUME(nm < 3 || k <= loops0);
+    std::string v = sel3(VN, nm); if (nm == 3) v = earlier_counter(k);
+    r.is_temp = t; r.in_use = t ? nondet_bool() : true; r.name = t ? TEMPS : v;
+    f.register_state.u.d[i] = r;
+    CEX_reg_temp[i] = t; CEX_reg_used[i] = r.in_use; CEX_reg_name[i] = nm;
+  }
+  f.register_state.n = n;
+}
+static void sym_state8(GenState &gs, Pre8 &P) {
+  P.n0 = pick8(G8_N0_LO, G8_N0); P.nl = pick8(G8_NL_LO, G8_NL); P.nt = pick8(G8_NT_LO, G8_NT); P.loops0 = pick8(0, G8_LOOPS);
+  CEX_g8[0] = P.n0; CEX_g8[1] = P.nl; CEX_g8[2] = P.nt; CEX_g8[3] = P.loops0;
+  { Instruction &p = gs.out.code.u.d[0]; p.op = OpCode::PREPARE_EXEC; p.parameters.prepare.count = -1; p.parameters.prepare.index = -1; p.parameters.prepare.target = 0; P.code[0] = p; }
+  for (int i = 1; i < G8_N0; i++) { Instruction ins = any_ins(true); gs.out.code.u.d[i] = ins; P.code[i] = ins; }
+  gs.out.code.n = P.n0;
+  for (int i = 0; i < G8_NL; i++) { int v = nondet_int(); ASSUME(v >= -1 && v <= P.n0); gs.labels.u.d[i] = v; P.lab[i] = v; }
+  gs.labels.n = P.nl;
+  int prev = 0;
+  for (int i = 0; i < G8_NT; i++) {
+    int loc = nondet_int();
+    Instruction j = P.code[0]; for (int q = 1; q < G8_N0; q++) if (q == loc) j = P.code[q];
+    bool ok = loc > prev && loc < P.n0 && (j.op == OpCode::JMP || j.op == OpCode::JMPC) && j.parameters.jmp.offset >= 0 && j.parameters.jmp.offset < P.nl;
+    ASSUME(i >= P.nt || ok);
+    gs.backpatching_todo.u.d[i] = loc; P.todo[i] = loc; P.todo_lab[i] = j.parameters.jmp.offset; prev = loc;
+  }
+  gs.backpatching_todo.n = P.nt;
+  gs.loops = P.loops0;
+  gs.pushSymbols(std::string("r"));
+  sym_regs8(gs.getSymbols(), P.loops0);
+  ASSUME(inv_reg(gs.getSymbols()));
+  P.nregs = (int)gs.getSymbols().register_state.size();
+}
+// frame condition: what was emitted / pending before is as before
+static bool frame8(const GenState &gs, const Pre8 &P, bool todo_too) {
+  bool ok = (int)gs.out.code.size() >= P.n0 && (int)gs.labels.size() >= P.nl;
+  for (int i = 0; i < G8_N0; i++) if (i < P.n0) ok = ok & same_ins(gs.out.code.u.d[i], P.code[i]);
+  for (int i = 0; i < G8_NL; i++) if (i < P.nl) ok = ok & (gs.labels.u.d[i] == P.lab[i]);
+  if (todo_too) { ok = ok & ((int)gs.backpatching_todo.size() >= P.nt); for (int i = 0; i < G8_NT; i++) if (i < P.nt) ok = ok & (gs.backpatching_todo.u.d[i] == P.todo[i]); }
+  return ok;
+}
+static int label_at(const GenState &gs, int l) { int r = -2; for (int i = 0; i < GR_INT; i++) if (i == l && i < (int)gs.labels.size()) r = gs.labels.u.d[i]; return r; }
+static int todo_at(const GenState &gs, int k) { int r = -2; for (int i = 0; i < GR_INT; i++) if (i == k && i < (int)gs.backpatching_todo.size()) r = gs.backpatching_todo.u.d[i]; return r; }
+
+static struct Ctx8 {
+  int vcalls, bcalls; Node *vnode, *bnode;
+  int vtgt, vpos, vend, vlabels, vregs; bool v_in, v_temp, v_live;           // value stub: what it was asked, where, state of the target register
+  int bpos, bend, blabels, btodo, blabels_end, btodo_end, bloops;            // body stub: where it ran, what it added
+  bool g_in, g_temp, g_live, g_named, b_clash, b_tmp;                        // state of the guarded register (counter / condition) while the body runs
+  FunctionGenState regs_end;                                                 // register file when the body returned
+} X;
+extern "C" void stub_value8(GenState &gs, Node *c, RegisterIndex tgt) {
+  FunctionGenState &f = gs.getSymbols();
+  if (X.vcalls == 0) {
+    X.vnode = c; X.vtgt = tgt; X.vpos = gs.getNextPos(); X.vlabels = (int)gs.labels.size(); X.vregs = (int)f.register_state.size();
+    bool in = tgt >= 0 && tgt < X.vregs; VReg g = reg_at(f, tgt);
+    X.v_in = in; X.v_temp = in && g.is_temp; X.v_live = in && g.in_use;
+  }
+  X.vcalls++;
+  bool decl = opt8(G8_VDECL); int nm = pick(0, 2); CEX_g8[4] = decl;
+  if (decl) f.fetchVariableRegister(sel3(VN, nm));            // first use of a variable inside the expression
+  int k = pick8(G8_KV_LO, G8_KV); CEX_g8[5] = k;
+  if (k >= 1) gs.emit(any_ins(false));
+  if (k >= 2) gs.emit(any_ins(false));
+  X.vend = gs.getNextPos();
+}
+extern "C" void stub_body8(GenState &gs, Node *c) {
+  FunctionGenState &f = gs.getSymbols();
+  if (X.bcalls == 0) { X.bnode = c; X.bpos = gs.getNextPos(); X.blabels = (int)gs.labels.size(); X.btodo = (int)gs.backpatching_todo.size(); }
+  X.bcalls++;
+  int guard = X.vtgt;
+  { int nr = (int)f.register_state.size(); bool in = guard >= 0 && guard < nr; VReg g = reg_at(f, guard);
+    X.g_in = in; X.g_temp = in && g.is_temp; X.g_live = in && g.in_use; X.g_named = in && hidden_name(g.name); }
+  bool tmp = opt8(G8_BTMP); int t = -1; CEX_g8[6] = tmp;
+  if (tmp) { t = f.fetchTemporary(); X.b_clash = X.b_clash || t == guard; }
+  X.b_tmp = tmp;
+  int nested = opt8(G8_BNEST) ? 1 : 0; gs.loops += nested;
+  int k = pick8(G8_KB_LO, G8_KB); CEX_g8[7] = k;
+  if (k >= 1) gs.emit(any_ins(false));
+  bool jump = opt8(G8_BJUMP); CEX_g8[8] = jump;
+  if (jump) {
+    bool fresh = nondet_bool(); int l = pick(0, GR_INT - 1); CEX_g8[9] = fresh;
+    if (fresh) l = gs.createLabel(); else ASSUME(l < (int)gs.labels.size());
+    Instruction j = nondet_bool() ? Instruction::JmpC(l, nondet_int()) : Instruction::Jmp(l);
+    gs.emitBackpatched(j);
+    if (fresh && nondet_bool()) gs.setLabel(l, pick(0, GR_CODE));
+  }
+  if (k >= 2) gs.emit(any_ins(false));
+  if (tmp) f.releaseTemporary(t);
+  X.bend = gs.getNextPos(); X.blabels_end = (int)gs.labels.size(); X.btodo_end = (int)gs.backpatching_todo.size(); X.bloops = gs.loops;
+  X.regs_end = f;
+}
+static void reset8() {
+  X.vcalls = X.bcalls = 0; X.vnode = X.bnode = NULL; X.vtgt = -1; X.vpos = X.vend = X.vlabels = X.vregs = -1; X.v_in = X.v_temp = X.v_live = false;
+  X.bpos = X.bend = X.blabels = X.btodo = X.blabels_end = X.btodo_end = X.bloops = -1; X.g_in = X.g_temp = X.g_live = X.g_named = X.b_clash = X.b_tmp = false;
+}
+// W = 0: LOOP bound DO body END through the real dispatchLoop;  W = 1: WHILE cond != 0 DO body END through the real dispatchWhile
+template <int W> static void loop_case() {
+  GenState gs = fresh_state();
+  Pre8 P; sym_state8(gs, P);
+  FunctionGenState pre = gs.getSymbols();
+  Node bound, body, lp;
+  mknode(bound, Node::Type::NAME, std::string("x"), NULL, NULL); mknode(body, Node::Type::STOP, std::string(), NULL, NULL);
+  mknode(lp, W ? Node::Type::WHILE : Node::Type::LOOP, std::string(), &bound, &body);
+  reset8();
+
+  if (W) dispatchWhile(gs, &lp); else dispatchLoop(gs, &lp);
+
+  FunctionGenState &f = gs.getSymbols();
+  const int n = (int)gs.out.code.size(), nregs = (int)f.register_state.size();
+  const int reg = X.vtgt;                  // the counter (LOOP) / condition (WHILE) register: the one the value was to be computed into
+  const int head = X.vend;                 // position right after the value code
+  const int tail = W ? 1 : 2;              // instructions after the body: [ADD] JMP
+  ASSERT(X.vcalls == 1 && X.vnode == &bound, "C01: the bound / condition is compiled exactly once, from the left child of the node");
+  ASSERT(X.bcalls == 1 && X.bnode == &body, "C01: the body (right child) is handed to the traversal exactly once");
+  ASSERT(gs.errors.size() == 0 && gs.symbols.size() == 1, "C01: compiling LOOP / WHILE itself records no error and leaves the symbol table stack alone");
+  ASSERT(X.vpos == P.n0 && X.bpos == head + 1 && n == X.bend + tail, "C01: nothing is emitted besides value code, one conditional jump, body code, the decrement (LOOP) and one back jump, in this order");
+  Instruction jc = code_at(gs, head), dec = code_at(gs, n - 2), jm = code_at(gs, n - 1);
+  ASSERT(jc.op == OpCode::JMPC && jc.parameters.jmpc.source == reg, "C01: right after the value code a JMPC tests the register the value was computed into");
+  ASSERT(jm.op == OpCode::JMP, "C01: the construct ends with an unconditional back jump");
+  if (!W) ASSERT(dec.op == OpCode::ADD_CONST && dec.parameters.add.target == reg && dec.parameters.add.source == reg && dec.parameters.add.constant == -1,
+                 "C01: after the body, right before the back jump, the counter is decremented by one (ADD counter, counter, -1)");
+  ASSERT(reg >= 0 && reg < X.vregs && reg < nregs, "C03: the counter / condition register is an index below the size of the register file, already when the value is compiled");
+  // labels and the list of jumps to patch
+  const int el = jc.parameters.jmpc.offset, sl = jm.parameters.jmp.offset;
+  ASSERT(X.blabels == P.nl + 2 && (int)gs.labels.size() == X.blabels_end && el >= P.nl && el < P.nl + 2 && sl >= P.nl && sl < P.nl + 2 && el != sl,
+         "C03: exactly two fresh labels are created, one carried by the exit jump and the other by the back jump");
+  const int start_pos = W ? X.vpos : head;
+  if (W) ASSERT(label_at(gs, sl) == start_pos, "C01: the label of the back jump is set to the position BEFORE the code of the condition: the condition is evaluated again on every iteration");
+  else ASSERT(label_at(gs, sl) == start_pos, "C01: the label of the back jump is set to the position of the test of the counter, AFTER the code of the bound: the bound is evaluated once");
+  ASSERT(label_at(gs, el) == n, "C01: the label of the exit jump is set to the position right after the back jump");
+  ASSERT(X.btodo == P.nt + 1 && (int)gs.backpatching_todo.size() == X.btodo_end + 1 && todo_at(gs, P.nt) == head && todo_at(gs, X.btodo_end) == n - 1,
+         "C03: the exit jump and the back jump are entered in backpatching_todo (around whatever the body entered), nothing else is");
+  ASSERT(frame8(gs, P, true), "C01: code emitted before, existing labels and pending backpatch entries are untouched");
+  ASSERT(nregs >= P.nregs && regs_kept(pre, f, P.nregs, -1), "C03: the register file never shrinks and no register that existed before changes");
+  ASSERT(inv_reg(f), "C03: Inv_reg preserved by compiling LOOP / WHILE");
+  VReg r = reg_at(f, reg);
+  if (!W) {
+    ASSERT(gs.loops >= P.loops0 + 1 && gs.loops == X.bloops && X.bloops - P.loops0 <= 2, "C16: every LOOP takes a new loop number (gs.loops is incremented before the body is compiled, never reset)");
+    ASSERT(!r.is_temp && r.in_use && hidden_name(r.name) && has_loop_number(r.name, P.loops0 + 1),
+           "C16: the LOOP counter is a variable register whose name cannot be spelled as an identifier and contains the loop number");
+    ASSERT(reg >= P.nregs, "C16: the LOOP counter is a register of its own: no register that existed before the loop (variable, counter of an earlier loop, temporary)");
+    ASSERT(X.g_in && !X.g_temp && X.g_live && X.g_named, "C16: while the body is compiled the counter is a live variable register under its hidden name");
+    ASSERT(!X.b_clash, "C16: a temporary fetched inside the body is never the counter register");
+    ASSERT(!X.v_temp && X.v_live, "C16: the counter is a variable register already when the bound is evaluated into it");
+    FunctionGenState f2 = f; int t2 = f2.fetchTemporary();
+    ASSERT(t2 != reg, "C16: after the loop fetchTemporary() never returns the counter register (the counter of a finished loop is not recycled either)");
+  } else {
+    ASSERT(gs.loops == X.bloops, "C01: WHILE takes no loop number");
+    ASSERT(X.v_in && X.v_temp && X.v_live, "C01: the condition is evaluated into a temporary that is in use");
+    ASSERT(X.g_in && X.g_temp && X.g_live && !X.b_clash, "C01: the condition register stays in use while the body is compiled: a temporary fetched inside the body is a different register");
+    ASSERT(r.is_temp && !r.in_use, "C01: the condition register is released after the loop");
+    ASSERT(nregs == (int)X.regs_end.register_state.size() && regs_kept(X.regs_end, f, nregs, reg), "C01: nothing but the condition register is released or changed after the body");
+  }
+  // the real backpatch(): where the two jumps land
+  gs.backpatch();
+  Instruction jc2 = code_at(gs, head), jm2 = code_at(gs, n - 1);
+  ASSERT(gs.backpatching_todo.size() == 0 && jc2.op == OpCode::JMPC && jm2.op == OpCode::JMP && jc2.parameters.jmpc.source == reg, "C01: backpatch() patches offsets only and empties the list");
+  ASSERT(head + jc2.parameters.jmpc.offset == n, "C01: after backpatch() the conditional jump leaves the loop to exactly the position after the back jump");
+  if (W) ASSERT((n - 1) + jm2.parameters.jmp.offset == start_pos, "C01: after backpatch() the back jump lands on the first instruction of the condition code (the conditional jump if the condition emits none)");
+  else ASSERT((n - 1) + jm2.parameters.jmp.offset == start_pos, "C01: after backpatch() the back jump lands exactly on the conditional jump that tests the counter");
+  ASSERT(head + jc2.parameters.jmpc.offset >= 0 && head + jc2.parameters.jmpc.offset <= n && (n - 1) + jm2.parameters.jmp.offset >= P.n0 && (n - 1) + jm2.parameters.jmp.offset < n,
+         "C03: both jump targets lie inside the code of the construct or right behind it");
+  bool older = true;
+  for (int i = 0; i < G8_NT; i++) if (i < P.nt) {
+    Instruction o = code_at(gs, P.todo[i]); int lv = P.lab[0]; for (int q = 1; q < G8_NL; q++) if (q == P.todo_lab[i]) lv = P.lab[q];
+    older = older & (o.parameters.jmp.offset == lv - P.todo[i]);
+  }
+  ASSERT(older, "C01: jumps that were pending before the loop still resolve to the label positions recorded before it");
+  ASSERT(X.vend - X.vpos != 2 || X.bend - X.bpos != 3 || P.nt != G8_NT || P.nl != G8_NL || P.n0 != G8_N0, "C01(EXISTS): all counts at their upper bounds");
+  ASSERT(P.nregs != 0 || P.n0 != 1, "C01(EXISTS): the construct as the first statement of a routine");
+}
+extern "C" void h_loop() { loop_case<0>(); ASSERT(0, "WITNESS: end of h_loop reachable"); }
+extern "C" void h_while() { loop_case<1>(); ASSERT(0, "WITNESS: end of h_while reachable"); }
+
+// x := y (FROM_NAME) / x := <literal of 1..3 digits> through the real dispatchAssign and the real dispatchValue
+template <int FROM_NAME> static void assign_case() {
+  GenState gs = fresh_state();
+  Pre8 P; sym_state8(gs, P);
+  FunctionGenState pre = gs.getSymbols();
+  int xi = pick(0, 2), yi = pick(0, 2), nd = pick(1, 3), d0 = pick(0, 9), d1 = pick(0, 9), d2 = pick(0, 9);
+  CEX_g8[4] = xi; CEX_g8[5] = yi; CEX_g8[6] = nd; CEX_g8[7] = d0; CEX_g8[8] = d1; CEX_g8[9] = d2;
+  std::string lit; lit.__push((char)('0' + d0)); if (nd >= 2) lit.__push((char)('0' + d1)); if (nd >= 3) lit.__push((char)('0' + d2));
+  int value = d0; if (nd >= 2) value = value * 10 + d1; if (nd >= 3) value = value * 10 + d2;
+  std::string xs = sel3(VN, xi), ys = sel3(VN, yi);
+  Node x, y, as;
+  mknode(x, Node::Type::NAME, xs, NULL, NULL);
+  if (FROM_NAME) mknode(y, Node::Type::NAME, ys, NULL, NULL); else mknode(y, Node::Type::NUMBER, lit, NULL, NULL);
+  mknode(as, Node::Type::ASSIGN, std::string(), &x, &y);
+
+  dispatchAssign(gs, &as);
+
+  FunctionGenState &f = gs.getSymbols();
+  const int n = (int)gs.out.code.size(), nregs = (int)f.register_state.size();
+  int kx = first_named(pre, xs), ky = first_named(pre, ys);
+  int rx = kx >= 0 ? kx : P.nregs;
+  int added = kx >= 0 ? 0 : 1;
+  int ry = -1;
+  if (FROM_NAME) { if (ky >= 0) ry = ky; else if (yi == xi) ry = rx; else { ry = P.nregs + added; added++; } }
+  ASSERT(n == P.n0 + 1 && gs.errors.size() == 0, "C01: an assignment of a variable or a literal emits exactly one instruction and records no error");
+  Instruction ins = code_at(gs, P.n0);
+  if (FROM_NAME) ASSERT(ins.op == OpCode::ADD_CONST && ins.parameters.add.target == rx && ins.parameters.add.source == ry && ins.parameters.add.constant == 0, "C01: x := y is ADD(register of x, register of y, 0)");
+  else ASSERT(ins.op == OpCode::CONST && ins.parameters.constant.target == rx && ins.parameters.constant.constant == value, "C01: x := c is CONST(register of x, value of the literal)");
+  ASSERT(nregs == P.nregs + added && regs_kept(pre, f, P.nregs, -1), "C01: registers are added for exactly the variables that had none, at the end of the register file; existing registers are unchanged");
+  VReg vx = reg_at(f, rx);
+  ASSERT(rx < nregs && !vx.is_temp && vx.in_use && vx.name == xs, "C01: the target is the variable register bound to the name x (allocated as a variable register if x is new)");
+  if (FROM_NAME) {
+    VReg vy = reg_at(f, ry);
+    ASSERT(ry >= 0 && ry < nregs && !vy.is_temp && vy.in_use && vy.name == ys, "C01: the source is the variable register bound to the name y; an undeclared y gets a variable register of its own, never a temporary");
+    ASSERT(ky >= 0 || yi == xi || (ry >= P.nregs && ry != rx), "C01: the register of an undeclared y is fresh (the VM zeroes the frame, so it reads 0) and differs from the register of x");
+  }
+  ASSERT(ins.parameters.add.target >= 0 && ins.parameters.add.target < nregs && (!FROM_NAME || (ins.parameters.add.source >= 0 && ins.parameters.add.source < nregs)), "C03: the register operands of the emitted instruction are below the size of the register file");
+  ASSERT(frame8(gs, P, true) && (int)gs.labels.size() == P.nl && (int)gs.backpatching_todo.size() == P.nt && gs.loops == P.loops0 && gs.symbols.size() == 1,
+         "C01: an assignment leaves earlier code, labels, pending jumps and the loop count untouched");
+  ASSERT(inv_reg(f), "C03: Inv_reg preserved by compiling an assignment");
+  if (FROM_NAME) ASSERT(!(kx < 0 && ky < 0 && yi != xi), "C01(EXISTS): an assignment in which both names are new");
+}
+extern "C" void h_assign() { if (nondet_bool()) assign_case<1>(); else assign_case<0>(); ASSERT(0, "WITNESS: end of h_assign reachable"); }
 #endif
